@@ -286,8 +286,12 @@ def parsers_keep_every_entry(ctx: Ctx, rid: str = "C14.R7") -> None:
 
         ctors = []
         for n in g.calls():
-            if n.id not in g.reachable() or any(fr.kind == "inline" for fr in n.frames):
-                continue  # statements of a helper analysed in place are represented by the helper's call
+            if n.id not in g.reachable():
+                continue
+            inl_ = [fr for fr in n.frames if fr.kind == "inline"]
+            if inl_ and any(id(fr.node) in g.inlined_calls and builds(g.inlined_calls[id(fr.node)]) for fr in inl_):
+                continue  # statements of a per-entry decoder analysed in place are represented by the decoder's call
+            # (a whole decoding STAGE extracted into a helper - its loop, its append, its return - is judged in place)
             if n.callee is not None and n.callee.kind == "ctor" and n.callee.cls is not None and n.callee.cls.name == cname:
                 ctors.append(n)
             elif isinstance(n.ast, ast.Call) and id(n.ast) in g.inlined_calls and builds(g.inlined_calls[id(n.ast)]):
@@ -327,6 +331,10 @@ def parsers_keep_every_entry(ctx: Ctx, rid: str = "C14.R7") -> None:
             lists = {dotted(a.ast.func.value) for a in apps if isinstance(a.ast, ast.Call)}  # type: ignore[union-attr]
             rets = [r for r in g.nodes if r.kind == "return" and r.id in reachable_from(g, lp.id, NORMAL) and r.ast is not None and r.ast.value is not None]  # type: ignore[union-attr]
             returned = any(names_in(r.ast.value) & {x for x in lists if x} for r in rets)  # type: ignore[union-attr]
+            if not returned:
+                # through the return of a stage helper analysed in place: the list flows into a value the function returns
+                rets2 = [r for r in g.nodes if r.kind == "return" and r.ast is not None and r.ast.value is not None and r.id in g.reachable()]  # type: ignore[union-attr]
+                returned = any({x for x in lists if x} & set(sl.origins(r.ast.value, r.id)["names"]) for r in rets2)  # type: ignore[union-attr]
             ctx.ob(rid, f, f"every decoded {cname} is kept", c, bool(apps) and wit is None and returned,
                    "each iteration appends the object to the returned list" if apps and wit is None and returned else
                    ("an iteration can complete without appending the object it decoded (or the list is not the one returned): the "
@@ -535,6 +543,30 @@ def r2_parsers(ctx: Ctx, rid: str) -> None:
             loops = [l for l in g.nodes if l.kind == "loop" and l.id in dom[r.id]]
             comp = isinstance(v, (ast.ListComp,)) or (isinstance(v, ast.Call) and isinstance(v.func, ast.Name) and v.func.id == "list"
                                                       and v.args and isinstance(v.args[0], (ast.GeneratorExp, ast.ListComp)))
+            if not loops and not comp and isinstance(v, ast.Name):
+                # `x = self._stage(path)` (analysed in place; None = 'not this format') ... `if x is not None: return x`: on the way
+                # to this return the stage was left through a `return <list>` - each of THOSE follows the stage's parse loop
+                ndom = ctx.dom(f, NORMAL)
+                for b in [b_ for b_ in g.nodes if b_.kind == "branch" and b_.id in ndom[r.id] and isinstance(b_.ast, ast.Compare)
+                          and len(b_.ast.ops) == 1 and isinstance(b_.ast.left, ast.Name) and b_.ast.left.id == v.id
+                          and isinstance(b_.ast.comparators[0], ast.Constant) and b_.ast.comparators[0].value is None]:
+                    lab = "false" if isinstance(b.ast.ops[0], (ast.Is, ast.Eq)) else "true"  # the not-None side
+                    t1, t0 = edge_target(g, b, lab), edge_target(g, b, "true" if lab == "false" else "false")
+                    if t1 is None or r.id not in reachable_from(g, t1, NORMAL) or (t0 is not None and r.id in reachable_from(g, t0, NORMAL)):
+                        continue
+                    ds = ctx.rd(f).reaching(b.id, v.id)
+                    outs = []
+                    okd = bool(ds)
+                    for d_ in ds:
+                        dn_ = g.nodes[d_]
+                        val_ = dn_.ast.value if d_ != g.entry and isinstance(dn_.ast, ast.Assign) else None
+                        if isinstance(val_, ast.Call) and id(val_) in g.inline_returns:
+                            outs += [(e_, n_) for e_, n_ in g.inline_returns[id(val_)] if not (e_ is None or (isinstance(e_, ast.Constant) and e_.value is None))]
+                        else:
+                            okd = False
+                    if okd and outs and all(not isinstance(e_, (ast.List, ast.Tuple, ast.Dict, ast.Constant))
+                                            and any(l.kind == "loop" and l.id in dom[n_] for l in g.nodes) for e_, n_ in outs):
+                        loops = [l for l in g.nodes if l.kind == "loop" and any(l.id in dom[n_] for _e, n_ in outs)]
             ctx.ob(rid, f, "return value is the parsed list, after its parse loop", r, (not const_empty) and (bool(loops) or comp),
                    "every successful exit returns what a completed parse loop accumulated")
         # missing file raises explicitly
